@@ -42,6 +42,7 @@ from deep.processor.context.action_results import ActionResult, ActionCallback
 from deep.processor.context.log_action import LOG_MSG, LogActionContext, LogActionResult
 from deep.processor.frame_collector import FrameCollectorContext, FrameCollector
 from deep.processor.variable_set_processor import VariableProcessorConfig
+from deep.utils import time_ns
 
 if TYPE_CHECKING:
     from deep.processor.context.trigger_context import TriggerContext
@@ -49,6 +50,18 @@ if TYPE_CHECKING:
 
 class SnapshotActionContext(FrameCollectorContext, ActionContext):
     """The context to use when capturing a snapshot."""
+
+    def __init__(self, parent: 'TriggerContext', action: 'LocationAction'):
+        """
+        Create a new snapshot action context.
+
+        :param parent: the parent trigger
+        :param action: the action config
+        """
+        super().__init__(parent, action)
+        # the time budget (MAX_TP_PROCESS_TIME) is per tracepoint: it starts with this action, so the time another
+        # tracepoint on the same event spent collecting does not leave this one with an empty frame
+        self._started_ns = time_ns()
 
     @property
     def max_tp_process_time(self) -> int:
@@ -69,8 +82,8 @@ class SnapshotActionContext(FrameCollectorContext, ActionContext):
 
     @property
     def ts(self) -> int:
-        """The timestamp in nanoseconds for this trigger."""
-        return self.trigger_context.ts
+        """The time in nanoseconds at which this action started (what its time budget is measured from)."""
+        return self._started_ns
 
     def should_collect_vars(self, current_frame_index: int) -> bool:
         """
